@@ -164,13 +164,15 @@ def fields_job(spec):
         dec_cas = rng.choice([rng.randrange(-360000, 360001), rng.randrange(-32400000 + 1, 32400000), -181550, -1, -99, 0,
                               -359999, 359999, -5999, -6000, 21599999, -21599999])
         ra_cs = rng.choice([rng.randrange(0, 8640000), 0, 8639999, 360000, 359999])    # centi-seconds of time
+        if i % 11 == 5:      # within a hair of the origin of either coordinate: seconds fields of a few 1e-5 (written in exponent form by str())
+            ra_cs, dec_cas = rng.choice([0.003, 0.001, 0.0002]), rng.choice([-0.004, 0.003, -0.0001])
         upd = {"coord": SkyCoord(ra=(ra_cs / 100.0 / 3600.0) * u.hourangle, dec=(dec_cas / 100.0 / 3600.0) * u.deg),
                # angles are given in whatever unit the caller likes: degrees, radians, hour angle, arcmin
                "azimuth": Angle(rng.choice([0.0, 12.5, 359.999999, rng.uniform(0, 360)]) * u.deg).to(rng.choice([u.deg, u.rad, u.hourangle, u.arcmin])),
                "zenith": Angle(rng.choice([0.0, 45.25, 89.999, rng.uniform(0, 90)]) * u.deg).to(rng.choice([u.deg, u.rad, u.arcmin])),
                "telescope": rng.choice(tels), "backend": rng.choice(backs), "frame": rng.choice(["topocentric", "barycentric", "pulsarcentric"]),
                "ibeam": rng.choice([0, 1, 13]), "nbeams": rng.choice([0, 1, 13]), "dm": rng.choice(DOUBLES[:8]),
-               "source": rng.choice(STRS[1:4] + STRS[5:8] + STRS[9:12]), "tsamp": rng.choice([6.4e-5, 1.0 / 3.0, 0.001]),
+               "source": rng.choice(STRS[1:4] + STRS[5:8] + STRS[9:12]), "tsamp": rng.choice([6.4e-5, 1.0 / 3.0, 0.001, 10.0, 12.5, 1000.0]),
                "tstart": rng.choice([50000.0, 58000.123456789]), "fch1": rng.choice([1500.0, 433.1]),
                "foff": rng.choice([-0.1, 1.0 / 3.0, -4.0]), "nchans": rng.choice([1, 4, 1024]), "nbits": rng.choice([1, 2, 4, 8, 16, 32]),
                "nifs": rng.choice([1, 2])}
@@ -181,7 +183,13 @@ def fields_job(spec):
             # one call in three asks for another sample depth through the nbits ARGUMENT (as requantize / to_tim do); the calls of a
             # job share one process, so whatever prep_outfile leaves behind is there for the next, plain, call
             nb_arg = rng.choice([1, 2, 4, 8, 16, 32]) if i % 3 == 1 else None
-            w = hin.prep_outfile(path) if nb_arg is None else hin.prep_outfile(path, nbits=nb_arg)
+            if i % 6 == 4:       # some fields through the `updates` argument TOGETHER with a depth override (each alone is the common case)
+                nb_arg = rng.choice([1, 2, 4, 8, 16, 32])
+                part = {k: upd[k] for k in ("tstart", "tsamp", "dm", "source", "ibeam", "fch1")}
+                h0 = base.new_header({k: v for k, v in upd.items() if k not in part})
+                w = h0.prep_outfile(path, updates=dict(part), nbits=nb_arg)
+            else:
+                w = hin.prep_outfile(path) if nb_arg is None else hin.prep_outfile(path, nbits=nb_arg)
             w.close()
             hout = Header.from_sigproc(path)
             e["fin"], e["fout"] = _proj(hin), _proj(hout)
